@@ -242,10 +242,56 @@ def r15_4(ctx, R, head):
     ctx.floor("R15.4", "refusal-returns", n, 1)
 
 
+def r15_5(ctx, R):
+    ctx.rule("R15.5", "the unbounded collections accept every push: every group they create has capacity >= 1 (a "
+                      "constant >= 1, capacity(last) * c with c >= 2 -- inductively >= 1 --, max(_, const >= 1), or a "
+                      "parameter behind a dominating `> 0` / `!= 0` / `>= 1` test), so that doubling always makes room")
+    n = 0
+    for b in ctx.facts.fn_bodies():
+        if not re.search(r"^(<)?(futures_unordered::FuturesUnordered|merge_unbounded::MergeUnbounded)", b.path):
+            continue
+        fl = ctx.flow(b)
+        for bb, t, fn in b.calls():
+            if fn is None or b.is_cleanup(bb) or not re.search(r"FuturesUnorderedBounded::<.*>::new$", fn_name(fn) or ""):
+                continue
+            n += 1
+            c = fl.operand_expr(t["args"][0])
+            if c[0] == "proj" and c[2] == (".0",):
+                c = c[1]
+            ok = False
+            det = expr_str(c)
+            if c[0] == "const":
+                ok = int(c[2]) >= 1
+            elif c[0] == "binop" and c[1].startswith("Mul") and c[3][0] == "const" and int(c[3][2]) >= 2 and c[2][0] == "call" and (c[2][1] or "").endswith("::capacity"):
+                ok = True
+                det += " (>= 1 by induction over the groups)"
+            elif c[0] == "call" and re.search(r"::max$", c[1] or "") and any(a[0] == "const" and int(a[2]) >= 1 for a in c[2]):
+                ok = True
+            else:
+                src = strip_refs(c)
+                if src[0] == "param":
+                    for sb in range(b.n):
+                        for tgt, labs in fl.edge_labels(sb).items():
+                            for lab in labs:
+                                if lab[0] == "bool" and b.dominates(tgt, bb) and len(b.pred[tgt]) == 1 and lab[1][0] == "binop":
+                                    op, a_, k_ = lab[1][1], strip_refs(lab[1][2]), lab[1][3]
+                                    if a_ == src and k_[0] == "const":
+                                        kv = int(k_[2])
+                                        pos = (op == "Gt" and kv >= 0 and lab[2]) or (op == "Ge" and kv >= 1 and lab[2]) or \
+                                              (op == "Ne" and kv == 0 and lab[2]) or (op == "Eq" and kv == 0 and not lab[2]) or \
+                                              (op == "Le" and kv == 0 and not lab[2]) or (op == "Lt" and kv == 1 and not lab[2])
+                                        if pos:
+                                            ok = True
+                                            det += " behind `%s %s %s` = %s" % (expr_str(a_), op, kv, lab[2])
+            ctx.ob("R15.5", b, "group-capacity>=1@%s" % _site_label(b, bb), ok, b.loc(bb), det)
+    ctx.floor("R15.5", "group-construction-sites", n, 5)
+
+
 def run(ctx):
     R = roles(ctx)
     R.insert_fn, R.remove_fn
     r15_1(ctx, R)
+    r15_5(ctx, R)
     res = c02.r2_3(ctx, R)
     ctx.rule("R2.3", "see C02 R2.3 (shared): slot-map insert/remove effects all-or-none; none exactly on refusal")
     counter, head = res["INSERT"]
